@@ -273,6 +273,7 @@ def run_case(case):
         started = False
         reacts = {i + 1: m['react'] for i, m in enumerate(case['members'])}
         waiting2 = set()
+        sups = []
 
         def live():
             return sorted(i for t, i in R.ids.items() if i != 0 and not t.done())
@@ -323,6 +324,15 @@ def run_case(case):
                     continue       # (the model has this call only before the joining task has run)
                 R.app_next()
                 label = ['appnext']
+            elif kind == 'cancelrem':
+                # somebody else (a supervisor task) calls cancel_remaining() on the group; the model has no such label:
+                # runs with this action are judged by the oracle only
+                sups.append(R.loop.create_task(R.g.cancel_remaining()))
+            elif kind == 'abandonrem':
+                # ... and gives up waiting for it (a timeout around the call, or the supervisor being cancelled)
+                for s_ in sups:
+                    if not s_.done():
+                        s_.cancel()
             elif kind == 'cancelJ':
                 if not started or R.J.done():
                     continue
@@ -450,6 +460,8 @@ def snap_term(s):
 
 
 def coq_case(case, obs):
+    if any(a[0] in ('cancelrem', 'abandonrem') for a in case['actions']):
+        return None
     out = []
     for l, sn in obs['trace']:
         # a spawn performed inside a member's step has no snapshot of its own
